@@ -1,5 +1,6 @@
 import PercevalModel.Proto
 import PercevalModel.Model.C13
+import PercevalModel.SimProto
 
 /-!
   C13 driver.  Requests (one JSON object per line):
@@ -11,6 +12,15 @@ import PercevalModel.Model.C13
     polarised input (`input`, `prep`), acceptance test of `Unitary(upol @ prep)`, exact Fock-space
     distribution on the doubled modes, sub-modes merged (`states`, `probs`), or `{"err":…}`
     (the stateless `answer` of the model).
+  * `{"op":"evolve","tree":T,"modes":…,"fixed":b[,"cond":C]}` → as `probs`, plus `sv`: the state vector
+    `evolve` returns (`polSV`): `[[ [h,v] per mode ], perm, ∏s!∏t!]` per entry; with `cond` (heralds /
+    post-selection set on the layer) also `sel`: `{"R": retained mass, "sv": entries}` (`selectSV`).
+  * `{"op":"convert","modes":…,"symbolic":b,"inverse":b}` → `{"input":…,"prep":rows}` of
+    `convert_polarized_state(state, use_symbolic, inverse)` or `{"err":…}`.
+  * `{"op":"select","tree":T,"modes":…,"fixed":b,"filterFixed":b,"sel":{"heralds":[[mode,val],…],
+    "ps":<expr>,"minDet":v,"keepHeralds":b}}` → the reply of `probs_svd` of the polarisation layer with
+    that selection (`polProbs filterFixed`): `results`, `phys`, `logic`, and `spec`: the conditioning
+    specification of C04 on the polarised distribution (`conditioned`, `phys`, `logic`, `retained`).
   * `{"op":"session","fixed":b,"steps":[{"set":T} | {"q":modes}, …]}` → `{"outs":[…]}`: the replies
     of ONE long-lived simulator object (`sessionStep` run from the fresh object over the whole
     history): `null` for an accepted `set_circuit`, the `probs` reply for a query, `{"err":…}`.
@@ -83,6 +93,12 @@ def rhoOf (vs : List (GQ × GQ)) : GQ :=
   | v1 :: v2 :: _ => GQ.ofRat (invSqrtNear1 (gsNorm2 v1 v2).re)
   | _ => 1
 
+/-- one entry of a state vector: `[[[h,v],…], [re,im] of perm, ∏s!∏t!]` -/
+def svJson (sv : List (SVEntry AFock GQ)) : Json :=
+  Json.arr (sv.map fun e =>
+    Json.arr #[Json.arr (e.key.map fun p => Json.arr #[toJson p.1, toJson p.2]).toArray,
+      gqToJson e.pamp, toJson e.norm2]).toArray
+
 abbrev SqV := (n : ℕ) × MatV GQ n n
 
 def SqV.rows (a : SqV) : Array (Array GQ) := a.2.toArray.map (·.toArray)
@@ -115,7 +131,8 @@ def envGQ (fixed : Bool) : Env (PComp GQ) (List (List (GQ × GQ))) SqV (List ℕ
     let sts := Fock.allStates (w.1 / 2) s.sum
     let ps := sts.map fun t => ratToJson (Dist.get d t)
     Json.mkObj [("input", toJson s), ("prep", rowsToJson sp.2.rows),
-      ("states", Json.arr (sts.map (fun t => toJson t)).toArray), ("probs", Json.arr ps.toArray)]
+      ("states", Json.arr (sts.map (fun t => toJson t)).toArray), ("probs", Json.arr ps.toArray),
+      ("sv", svJson (polSV w.2.toMatrix s))]
 
 def modesOf (modesJ : Array Json) : Except String (List (List (GQ × GQ))) :=
   modesJ.toList.mapM fun mj => do
@@ -154,6 +171,64 @@ def handle (j : Json) : Json :=
       match ← answer (envGQ fixed) (some c) modes with
       | some r => return r
       | none => throw "internal: no reply"
+    | "evolve" =>
+      let c ← evalTree (← j.getObjVal? "tree")
+      let fixed ← boolOf j "fixed"
+      let modes ← modesOf (← arrOf j "modes")
+      let env := envGQ fixed
+      let (sp, p) ← env.prepare modes
+      let u ← env.compile c
+      let w ← env.mkUnitary u p
+      let base := env.simulate w sp
+      match j.getObjVal? "cond" with
+      | .error _ => return base
+      | .ok cj =>
+        let cond ← SimProto.condOfJson cj
+        let r := selectSV { cond with minPhotons := 0 } (polSV w.2.toMatrix sp.1)
+        return base.setObjVal! "sel" (Json.mkObj [("R", ratToJson r.2), ("sv", svJson r.1)])
+    | "convert" =>
+      let modes ← modesOf (← arrOf j "modes")
+      let symbolic ← boolOf j "symbolic"
+      let inverse ← boolOf j "inverse"
+      let orth : GQ × GQ → GQ × GQ → Bool := if symbolic then orthExact else orthGQ
+      let scans ← modes.mapM fun phs => scanMode orth phs ⟨[], 0, 0⟩
+      let m := modes.length
+      let arr := scans.toArray
+      if inverse ∧ (List.range m).any (fun k =>
+          let vs := (arr.getD k ⟨[], 0, 0⟩).vectors
+          !vs.isEmpty && det2 (modeBlock (!symbolic) (rhoOf vs) vs) == 0) then
+        throw "LinAlgError"
+      let blocks : Fin m → Matrix (Fin 2) (Fin 2) GQ := fun k =>
+        let vs := (arr.getD k.val ⟨[], 0, 0⟩).vectors
+        modeBlockX (!symbolic) inverse (rhoOf vs) (fun M => gqInv (det2 M)) vs
+      let prepV : MatV GQ (m * 2) (m * 2) := MatV.ofMatrix (prepMatrix blocks)
+      return Json.mkObj [("input", toJson (spatialInput scans)),
+        ("prep", matVJson prepV)]
+    | "select" =>
+      let c ← evalTree (← j.getObjVal? "tree")
+      let fixed ← boolOf j "fixed"
+      let filterFixed ← boolOf j "filterFixed"
+      let modes ← modesOf (← arrOf j "modes")
+      let sj ← j.getObjVal? "sel"
+      let hs ← (← arrOf sj "heralds").toList.mapM fun h => do
+        match (← natList h) with
+        | [a, b] => pure (a, b)
+        | _ => throw "bad herald"
+      let sel : Sel := ⟨hs, ← SimProto.psOfJson (← sj.getObjVal? "ps"), ← natOf sj "minDet",
+        ← boolOf sj "keepHeralds"⟩
+      let env := envGQ fixed
+      let (sp, p) ← env.prepare modes
+      let u ← env.compile c
+      let w ← env.mkUnitary u p
+      let d0 := spatialDist w.2.toMatrix sp.1
+      let r := polProbs filterFixed sel d0
+      let dm := Dist.mapKeys mergeState d0
+      return Json.mkObj [("input", toJson sp.1), ("results", SimProto.distToJson r.1),
+        ("phys", ratToJson r.2.1), ("logic", ratToJson r.2.2),
+        ("spec", Json.mkObj [("conditioned", SimProto.distToJson (SimSpec.conditioned sel.cond dm)),
+          ("phys", ratToJson (SimSpec.physPerf sel.cond dm)),
+          ("logic", ratToJson (SimSpec.logicalPerf sel.cond dm)),
+          ("retained", ratToJson (Dist.mass (SimSpec.retained sel.cond dm)))])]
     | "session" =>
       let fixed ← boolOf j "fixed"
       let steps ← arrOf j "steps"
